@@ -50,25 +50,39 @@ Theorem WeightedMCP_unit_prox alpha gamma weights pos x s j :
   @WeightedMCPenalty_prox_1d R _ alpha gamma weights pos x s j = @MCPenalty_prox_1d R _ alpha gamma pos x s j.
 Proof. intros Hw. unfold WeightedMCPenalty_prox_1d, MCPenalty_prox_1d. rewrite Hw. reflexivity. Qed.
 
-(* ---- singleton group: block soft-thresholding = soft-thresholding (BST(0, 0) divides by zero: excluded) ---- *)
-Theorem BST_singleton x u : 0 <= u -> (0 < u \/ x <> 0) ->
+(* ---- singleton group: block soft-thresholding = soft-thresholding, for every threshold u >= 0 (u = 0 and x = 0 included) ---- *)
+Theorem BST_singleton x u : 0 <= u ->
   @BST R _ [x] u false = bind (@ST R _ x u false) (fun p => Ok [p]).
 Proof.
-  intros Hu Hnz. unfold BST, ST. cbn [vnorm vmap vsum fold_left map fsq fmul fadd fsqrt0 f0 fofZ RNum fltb fopp negb andb].
+  intros Hu. unfold BST, ST. cbn [vnorm vmap vsum fold_left map fsq fmul fadd fsqrt0 f0 fofZ RNum fltb fleb fopp negb andb].
   assert (Hs : sqrt (0 + x * x) = Rabs x) by (rewrite Rplus_0_l; apply sqrt_square_abs || (fold (Rsqr x); apply sqrt_Rsqr_abs)).
-  rewrite Hs. unfold Rltb. unfold ret. cbn [bind].
-  destruct (Rlt_dec (Rabs x) u) as [H1|H1].
+  rewrite Hs. unfold Rltb, Rleb. unfold ret. cbn [bind].
+  destruct (Rle_dec (Rabs x) u) as [H1|H1].
   - destruct (Rlt_dec u x); [exfalso; revert H1; rabs; lra|]. destruct (Rlt_dec x (- u)); [exfalso; revert H1; rabs; lra|].
     reflexivity.
   - cbn [fdiv RNum]. destruct (Req_EM_T (Rabs x) 0) as [e|e].
-    + exfalso. assert (x = 0) by (revert e; rabs; lra). subst. rewrite Rabs_R0 in H1. destruct Hnz; lra.
+    + exfalso. rewrite e in H1. lra.
     + cbn [bind vmap map fmul fsub fofZ RNum].
       destruct (Rlt_dec u x) as [H2|H2].
       * rewrite Rabs_right by lra. cbn [bind]. replace ((1 - u / x) * x) with (x - u) by (field; lra). reflexivity.
       * destruct (Rlt_dec x (- u)) as [H3|H3].
         -- rewrite Rabs_left by lra. cbn [bind]. replace ((1 - u / - x) * x) with (x + u) by (field; lra). reflexivity.
-        -- cbn [bind]. assert (Hax : Rabs x = u) by (revert H1 e; rabs; lra).
-           rewrite Hax. replace ((1 - u / u) * x) with 0; [reflexivity|]. field. rewrite <- Hax. exact e.
+        -- exfalso. apply H1. revert H2 H3; rabs; lra.
+Qed.
+
+(* block soft-thresholding never fails (no division by a zero norm) for a non-negative threshold, with or without the
+   positivity option, and keeps the length of its input *)
+Lemma vnorm_nonneg (x : list R) : 0 <= @vnorm R _ x.
+Proof. unfold vnorm. cbn [fsqrt0 RNum]. apply sqrt_pos. Qed.
+
+Theorem BST_plain_total (x : list R) u : 0 <= u -> exists r, @BST__positive_False R _ x u = Ok r /\ length r = length x.
+Proof.
+  intros Hu. unfold BST__positive_False. cbn [fleb RNum]. unfold Rleb.
+  destruct (Rle_dec (@vnorm R _ x) u) as [H1|H1].
+  - eexists. split; [reflexivity|]. unfold vzeros_like. apply map_length.
+  - cbn [fdiv RNum]. destruct (Req_EM_T (@vnorm R _ x) 0) as [e|e].
+    + exfalso. apply H1. rewrite e. exact Hu.
+    + cbn [bind]. eexists. split; [reflexivity|]. unfold vmap. apply map_length.
 Qed.
 
 (* ---- unit sample weights: WeightedQuadratic = Quadratic ---- *)
